@@ -6,7 +6,7 @@ import ast
 from ..core import terms as T
 from ..core import asthelp as H
 from ..core.interp import Interp
-from ..core.progdb import AnalysisError
+from ..core.progdb import AnalysisError, call_name
 from ..core.values import Frame, Obj, PyTuple, to_term
 from ..specs.merge import MergeHook, check_merge, check_term, span_terms, busy_term, merged_frame_of
 from ..specs import kernel_type as KT
@@ -108,14 +108,38 @@ def run(db, chk) -> None:
                    [T.sub(s, busy_term(M)) for s in spans], "idle is the part of the span covered by no merged interval")
 
     # ---------------------------------------------------------------- R2b per-rank parts
-    ref2 = f"{BA}:BreakdownAnalysis.get_temporal_breakdown.idle_time_per_rank"
-    f2 = m.func("BreakdownAnalysis.get_temporal_breakdown.idle_time_per_rank")
+    # the per-rank function is found by ROLE (it may be a nested closure or a method): the callee of get_temporal_breakdown that measures merged intervals
+    outer = m.func("BreakdownAnalysis.get_temporal_breakdown")
+    per_rank_q = None
+    for c_ in H.calls(outer, nested=False):
+        nm_ = call_name(c_).split(".")[-1]
+        for q_ in (f"BreakdownAnalysis.get_temporal_breakdown.{nm_}", f"BreakdownAnalysis.{nm_}", nm_):
+            d_ = m.functions.get(q_)
+            if d_ is not None and d_ is not outer and any(isinstance(x, ast.Call) and call_name(x).split(".")[-1] in ("merge_kernel_intervals", "_get_idle_time_for_kernels") for x in ast.walk(d_)):
+                per_rank_q = q_
+    if per_rank_q is None:
+        raise AnalysisError("get_temporal_breakdown: no per-rank callee that measures merged kernel intervals was found")
+    per_rank_name = per_rank_q.split(".")[-1]
+    ref2 = f"{BA}:{per_rank_q}"
+    f2 = m.func(per_rank_q)
     where2 = m.loc(f2)
     TR = ("param", "TR")
     hook.reset()
     I = Interp(db, call_hook=hook)
-    runs = I.explore(ref2, lambda I: {"trace_df": Frame(TR)},
-                     lambda I: {"cls": Obj("cls", cls=cls), "sym_table": T.P("sym_table")})
+
+    def role_args(I):
+        out = {}
+        for p_ in H.param_names(f2):
+            if p_ in ("cls", "self"):
+                out[p_] = Obj("cls", cls=cls)
+            elif "sym" in p_:
+                out[p_] = T.P("sym_table")
+            elif "df" in p_ or "trace" in p_ or "kernel" in p_:
+                out[p_] = Frame(TR)
+            else:
+                raise AnalysisError(f"{per_rank_q}: role of parameter {p_} not recognised")
+        return out
+    runs = I.explore(ref2, role_args, lambda I: {"cls": Obj("cls", cls=cls), "sym_table": T.P("sym_table")})
     chk.analysed_add("functions", ref2)
     ok_runs = [r for r in runs if r.raised is None]
     from ..specs.merge import merged_frame_of
@@ -133,7 +157,7 @@ def run(db, chk) -> None:
     parts = PyTuple([T.P("IDLE"), T.P("COMPUTE"), T.P("NONCOMPUTE"), T.P("KERNEL")])
 
     def hook3(I, name, pos, kw, node):
-        if name == "idle_time_per_rank":
+        if name.split(".")[-1] == per_rank_name:
             return PyTuple(list(parts.items))
         if name.startswith("px.") or name.startswith("fig."):
             return None
